@@ -67,7 +67,7 @@ class Prop(c09.Prop):
                      shape='x'.join(str(x) for x in d['shape']), payload=d['payload'],
                      ncell=d['shape'][0] * d['shape'][1])
         vs = []
-        for tag in ('roundtrip', 'roundtrip-hand-built'):
+        for tag in ('roundtrip', 'roundtrip-hand-built') + (('roundtrip-hand-built-reversed',) if r['others'] else ()):
             sig = (tag, 'landuse')
             for p in (p1, p2):
                 if os.path.exists(p):
@@ -77,7 +77,7 @@ class Prop(c09.Prop):
                     fa = cl.open_lu(p0, r)
                     pa = present(fa)
                 else:
-                    fa = cl.lu_hand(r)
+                    fa = cl.lu_hand(r, reverse=tag.endswith('reversed'))
                     pa = None
                 cl.write('landuse', fa, p1)
                 fb = cl.open_lu(p1, r)
@@ -97,6 +97,17 @@ class Prop(c09.Prop):
                 vs.append(viol('raises', sig, '%s: %r' % (type(e).__name__, e), exc=type(e).__name__, **scope))
         return result('viol' if vs else 'ok', vs, [h64(raw)], 7, h64('c08', sorted(d.items(), key=str)),
                       h64(raw) if not vs else None)
+
+    def groups(self, tier):
+        # (binary punch files are decided by C18 and, for the layout, by C09)
+        for d in c09.Prop.groups(self, tier):
+            if d['fmt'] != 'bpch':
+                yield d
+
+    def bounds(self, tier):
+        b = c09.Prop.bounds(self, tier)
+        b.pop('bpch', None)
+        return b
 
     def run_one(self, d):
         if d['fmt'] == 'landuse':
@@ -144,25 +155,26 @@ class Prop(c09.Prop):
             vs.append(viol('raises', sig, '%s: %r' % (type(e).__name__, e), exc=type(e).__name__, **scope))
         # the same content as a file built in memory (no ETFLAG, non-contiguous arrays): write, read,
         # compare with the source, write again
-        sig = ('roundtrip-hand-built', fmt)
-        for p in (p1, p2):
-            if os.path.exists(p):
-                os.unlink(p)
-        try:
-            fh_ = c09.build_hand(r)
-            cl.write(fmt, fh_, p1)
-            fb = cl.open_mm(fmt, p1, r)
-            for c, det in cl.compare_to_recipe(fb, r):
-                if c in ('grid-header', 'file-header') and fmt not in ('uamiv', 'lateral_boundary'):
-                    continue
-                vs.append(viol('reread-' + c, sig, det, **scope))
-            cl.write(fmt, fb, p2)
-            b1, b2 = open(p1, 'rb').read(), open(p2, 'rb').read()
-            if b1 != b2:
-                i = next((k for k in range(min(len(b1), len(b2))) if b1[k] != b2[k]), min(len(b1), len(b2)))
-                vs.append(viol('rewrite-not-identical', sig, 'second write differs from the first at byte %d '
-                               '(%d vs %d bytes)' % (i, len(b1), len(b2)), **scope))
-        except Exception as e:
-            vs.append(viol('raises', sig, '%s: %r' % (type(e).__name__, e), exc=type(e).__name__, **scope))
+        for rev in ((False, True) if fmt in camx_u.MET and len(cl.varnames(r)) >= 2 else (False,)):
+            sig = ('roundtrip-hand-built-reversed' if rev else 'roundtrip-hand-built', fmt)
+            for p in (p1, p2):
+                if os.path.exists(p):
+                    os.unlink(p)
+            try:
+                fh_ = c09.build_hand(r, rev)
+                cl.write(fmt, fh_, p1)
+                fb = cl.open_mm(fmt, p1, r)
+                for c, det in cl.compare_to_recipe(fb, r):
+                    if c in ('grid-header', 'file-header') and fmt not in ('uamiv', 'lateral_boundary'):
+                        continue
+                    vs.append(viol('reread-' + c, sig, det, **scope))
+                cl.write(fmt, fb, p2)
+                b1, b2 = open(p1, 'rb').read(), open(p2, 'rb').read()
+                if b1 != b2:
+                    i = next((k for k in range(min(len(b1), len(b2))) if b1[k] != b2[k]), min(len(b1), len(b2)))
+                    vs.append(viol('rewrite-not-identical', sig, 'second write differs from the first at byte %d '
+                                   '(%d vs %d bytes)' % (i, len(b1), len(b2)), **scope))
+            except Exception as e:
+                vs.append(viol('raises', sig, '%s: %r' % (type(e).__name__, e), exc=type(e).__name__, **scope))
         return result('viol' if vs else 'ok', vs, st, 7, h64('c08', sorted(d.items(), key=str)),
                       h64(raw) if not vs else None)
